@@ -7,7 +7,7 @@ cd /verif
 save=$(mktemp -d /tmp/evid.XXXXXX); cp -a /verif/evidence/. $save/ 2>/dev/null
 git -C /repo apply "$patch" || { echo "patch does not apply"; exit 2; }
 for p in "$@"; do
-  out=$(./check "$p" --tier quick 2>&1); rc=$?
+  out=$(timeout 900 ./check "$p" --tier quick 2>&1); rc=$?
   echo "== $p rc=$rc"; echo "$out" | grep -E "VIOLATION|KNOWN" | head -3
   if [ $rc -eq 1 ]; then
     f=$(echo "$out" | grep -m1 -oE "replay=\S+" | cut -d= -f2)
